@@ -65,6 +65,22 @@ def generate(repo, mutation=None):
     elen = ', '.join(str(len(e)) if e is not None else '255' for e in exp)
     def cls(name, c):
         return 'fn %s(b: u8) -> bool { %s }' % (name, ' || '.join('(b >= %d && b <= %d)' % (lo, hi) for lo, hi in c if hi < 256) or 'false')
+    # ---- XML whitespace: the trim set and the collapse pattern of trim_element against XML 1.0 production S (#x20 | #x9 | #xD | #xA)
+    wm = re.search(r"const WHITESPACE: &\[char\] = &\[([^\]]*)\];", isrc.text)
+    wr = re.search(r'static ref WHITESPACE_MATCH: Regex = Regex::new\(r#"\[([^\]]*)\]\+"#\)', isrc.text)
+    if not wm or not wr:
+        raise CutError('WHITESPACE / WHITESPACE_MATCH of trim_element not found')
+    def char_codes(txt):
+        out = []
+        for tok in re.findall(r"\\u\{([0-9A-Fa-f]+)\}|'(.)'|(.)", txt):
+            if tok[0]: out.append(int(tok[0], 16))
+            elif tok[1]: out.append(ord(tok[1]))
+            elif tok[2] not in (',', "'") and not (tok[2] == ' ' and "'" in txt): out.append(ord(tok[2]))
+        return sorted(set(out))
+    ws_set = char_codes(wm.group(1))
+    ws_cls = char_codes(wr.group(1))
+    if mutation and mutation.get('drop_cr'):
+        ws_set = [c for c in ws_set if c != 13]; ws_cls = [c for c in ws_cls if c != 13]
     CH = 125
     proofs = []
     hs = []
@@ -96,6 +112,15 @@ static ELEN: [u8; N] = [%s];
 %s
 %s
 fn hexval(c: u32) -> u32 { if c <= 57 { c - 48 } else if c <= 70 { c - 55 } else { c - 87 } }
+fn in_trim_set(c: u32) -> bool { %s }
+fn in_collapse_class(c: u32) -> bool { %s }
+#[kani::proof]
+fn verif_u17a_xml_whitespace() {
+    let c: char = kani::any(); let v = c as u32;
+    let xml_s = v == 0x20 || v == 0x9 || v == 0xD || v == 0xA;          // XML 1.0, production [3] S
+    assert!(in_trim_set(v) == xml_s, "trim_element trims exactly the XML whitespace characters");
+    assert!(in_collapse_class(v) == xml_s, "trim_element collapses exactly the XML whitespace characters");
+}
 fn is_hex(c: u32) -> bool { (c >= 48 && c <= 57) || (c >= 65 && c <= 70) || (c >= 97 && c <= 102) }
 fn check(i: usize) {
     let k = &KEYS[i]; let kl = KLEN[i] as usize;
@@ -141,7 +166,10 @@ fn check(i: usize) {
 }
 %s
 fn main() {}
-''' % (n, pat, n, KMAX, keys, klen, VMAX, vals, vlen, VMAX, exps, elen, cls('class_first', c1), cls('class_rest', c2), KMAX, VMAX, VMAX, VMAX, VMAX, '\n'.join(proofs))
+''' % (n, pat, n, KMAX, keys, klen, VMAX, vals, vlen, VMAX, exps, elen, cls('class_first', c1), cls('class_rest', c2), ' || '.join('c == %d' % x for x in ws_set) or 'false', ' || '.join('c == %d' % x for x in ws_cls) or 'false', KMAX, VMAX, VMAX, VMAX, VMAX, '\n'.join(proofs))
+    hs.append({'name': 'verif_u17a_xml_whitespace', 'inputs': [('c', 'char')], 'timeout': 300,
+               'covers': [{'name': 'trim_element::WHITESPACE', 'file': 'src/interface.rs', 'path': 'fn trim_element', 'line': 0, 'sha': ''}],
+               'requires': 'c is ANY char', 'ensures': 'the trim set WHITESPACE and the collapse class of WHITESPACE_MATCH (both cut from trim_element) contain exactly the four XML whitespace characters U+0020, U+0009, U+000A, U+000D -- line-ending conventions (CRLF) inside token elements are insignificant'})
     return {'rs': rs, 'harnesses': hs,
             'assumptions': ['[U17a] the entity pattern is read as &(CLASS CLASS*?); with plain character classes (own 20-line class reader, not regex-syntax); lazy vs greedy does not matter before the literal ;',
                             '[U17a] oracle for expansions: python html.entities.html5 (HTML5 named character references = W3C entity set)', '[U17a] phf::Map::get(name) returns the listed value (table literal == run-time table)',
@@ -152,5 +180,6 @@ fn main() {}
 CANARIES = [
     {'name': 'pattern_letters_only', 'pattern': '&([a-zA-Z]+?);', 'expect': 'verif_u17a_1000', 'what': 'entity pattern back to letters only (defect D9)'},
     {'name': 'nvlt_is_ampersand', 'value': ('nvlt', '&#x0026;\u20d2'), 'expect': 'verif_u17a_1500', 'what': 'nvlt expands to & + U+20D2 (defect D16)'},
+    {'name': 'carriage_return_not_whitespace', 'drop_cr': True, 'expect': 'verif_u17a_xml_whitespace', 'what': 'U+000D removed from the whitespace set and class'},
     {'name': 'raw_ampersand_value', 'value': ('amp', '&'), 'expect': 'verif_u17a_0500', 'what': 'value of amp becomes a raw &'},
 ]
